@@ -68,34 +68,35 @@ structure IKids where
 
 def joinTypes (ts : List String) : String := ",".intercalate ts
 
-def eInvalidType (path typ : String) : Msg := ⟨601, path, "invalidType:" ++ typ⟩
-def eRequired (path : String) : Msg := ⟨602, path, "required"⟩
-def eTooLong (path : String) : Msg := ⟨603, path, "tooLong"⟩
-def eTooShort (path : String) : Msg := ⟨604, path, "tooShort"⟩
-def ePattern (path pat : String) : Msg := ⟨605, path, "pattern:" ++ pat⟩
-def eEnum (path : String) : Msg := ⟨606, path, "enum"⟩
-def eNotMultipleOf (path : String) : Msg := ⟨607, path, "multipleOf"⟩
-def eMax (path : String) : Msg := ⟨608, path, "max"⟩
-def eMin (path : String) : Msg := ⟨609, path, "min"⟩
-def eUnique (path : String) : Msg := ⟨610, path, "unique"⟩
-def eMaxItems (path : String) : Msg := ⟨611, path, "maxItems"⟩
-def eMinItems (path : String) : Msg := ⟨612, path, "minItems"⟩
-def eTooFewProps (path : String) : Msg := ⟨614, path, "minProperties"⟩
-def eTooManyProps (path : String) : Msg := ⟨615, path, "maxProperties"⟩
-def eUnallowedProp (path key : String) : Msg := ⟨616, path, "unallowed:" ++ key⟩
-def eMulPositive (path : String) : Msg := ⟨618, path, "multipleOfMustBePositive"⟩
-def eAnyOf (path : String) : Msg := ⟨422, path, "anyOf"⟩
-def eOneOf (path extra : String) : Msg := ⟨422, path, "oneOf:" ++ extra⟩
-def eAllOf (path extra : String) : Msg := ⟨422, path, "allOf:" ++ extra⟩
-def eNot (path : String) : Msg := ⟨422, path, "not"⟩
-def eDependency (path dep : String) : Msg := ⟨422, path, "dependency:" ++ dep⟩
-def eNoAddlItems : Msg := ⟨422, "", "noAdditionalItems"⟩
-def eRefInHeader (path header ref : String) : Msg := ⟨422, path, "IMPORTANT!refInHeader:" ++ header ++ ":" ++ ref⟩
-def eInvalidObject (path : String) : Msg := ⟨422, path, "invalidObject"⟩
+def eInvalidType (path typ : String) : Msg := { code := 601, name := path, tag := "invalidType:" ++ typ }
+def eRequired (path : String) : Msg := { code := 602, name := path, tag := "required" }
+def eTooLong (path : String) : Msg := { code := 603, name := path, tag := "tooLong" }
+def eTooShort (path : String) : Msg := { code := 604, name := path, tag := "tooShort" }
+def ePattern (path pat : String) : Msg := { code := 605, name := path, tag := "pattern:" ++ pat }
+def eEnum (path : String) : Msg := { code := 606, name := path, tag := "enum" }
+def eNotMultipleOf (path : String) : Msg := { code := 607, name := path, tag := "multipleOf" }
+def eMax (path : String) : Msg := { code := 608, name := path, tag := "max" }
+def eMin (path : String) : Msg := { code := 609, name := path, tag := "min" }
+def eUnique (path : String) : Msg := { code := 610, name := path, tag := "unique" }
+def eMaxItems (path : String) : Msg := { code := 611, name := path, tag := "maxItems" }
+def eMinItems (path : String) : Msg := { code := 612, name := path, tag := "minItems" }
+def eTooFewProps (path : String) : Msg := { code := 614, name := path, tag := "minProperties" }
+def eTooManyProps (path : String) : Msg := { code := 615, name := path, tag := "maxProperties" }
+def eUnallowedProp (path key : String) : Msg := { code := 616, name := path, tag := "unallowed:" ++ key }
+def eMulPositive (path : String) : Msg := { code := 618, name := path, tag := "multipleOfMustBePositive" }
+def eAnyOf (path : String) : Msg := { code := 422, name := path, tag := "anyOf" }
+def eOneOf (path extra : String) : Msg := { code := 422, name := path, tag := "oneOf:" ++ extra }
+def eAllOf (path extra : String) : Msg := { code := 422, name := path, tag := "allOf:" ++ extra }
+def eNot (path : String) : Msg := { code := 422, name := path, tag := "not" }
+def eDependency (path dep : String) : Msg := { code := 422, name := path, tag := "dependency:" ++ dep }
+def eNoAddlItems : Msg := { code := 422, name := "", tag := "noAdditionalItems" }
+def eRefInHeader (path header ref : String) : Msg :=
+  { code := 422, name := path, tag := "refInHeader:" ++ header ++ ":" ++ ref, important := true }
+def eInvalidObject (path : String) : Msg := { code := 422, name := path, tag := "invalidObject" }
 
-def isImportant (m : Msg) : Bool := m.tag.startsWith "IMPORTANT!"
-/-- result.go:378-380: a new plain error (no code) carrying the text without the tag -/
-def stripImportant (m : Msg) : Msg := { m with code := 0, tag := (m.tag.drop 10).toString }
+def isImportant (m : Msg) : Bool := m.important
+/-- result.go:378-380: a new plain error (no code) carrying the text without the placeholder -/
+def stripImportant (m : Msg) : Msg := { m with code := 0, important := false }
 
 /-- helpers.go:101-113 sErr: a result holding just this error -/
 def sErr (e : Msg) : Res := { errors := [e] }
@@ -211,29 +212,36 @@ def addlLoop (f : V) (path : String) (xs : List JVal) : Nat → Nat → Res → 
     | none => absorb acc panic
     | some x => addlLoop f path xs fuel (i + 1) (acc.mergeOne (f (idx path i) x))
 
-def sliceValidate (cfg : Cfg) (b : SBase) (k : IKids) (path : String) (xs : List JVal) : Res :=
+/-- slice_validator.go:116-126: additional items -/
+def addlPart (cfg : Cfg) (b : SBase) (k : IKids) (path : String) (xs : List JVal) (r2 : Res) : Res :=
   let size := xs.length
-  let r1 := match k.itemsS with
-    | some f => itemsLoop f path xs 0 {}
-    | none => {}
   let itemsSize := k.itemsT.length
-  let r2 := tupleLoop path k.itemsT xs 0 r1
-  let r3 :=
-    if b.addItems != .absent && itemsSize < size then
-      let r := if itemsSize > 0 && b.addItems == .bool false then r2.addErrors [some eNoAddlItems] else r2
-      match b.addItems, k.addItemsS with
-      | .schema, some f =>
-        if cfg.addlItemsBound then
-          -- the pinned snapshot: no tuple guard, upper bound size-itemsSize+1
-          addlLoop f path xs (size - itemsSize + 1 - itemsSize) itemsSize r
-        else if itemsSize > 0 then addlLoop f path xs (size - itemsSize) itemsSize r
-        else r
-      | _, _ => r
-    else r2
+  if b.addItems != .absent && itemsSize < size then
+    let r := if itemsSize > 0 && b.addItems == .bool false then r2.addErrors [some eNoAddlItems] else r2
+    match b.addItems, k.addItemsS with
+    | .schema, some f =>
+      if cfg.addlItemsBound then
+        -- the pinned snapshot: no tuple guard, upper bound size-itemsSize+1
+        addlLoop f path xs (size - itemsSize + 1 - itemsSize) itemsSize r
+      else if itemsSize > 0 then addlLoop f path xs (size - itemsSize) itemsSize r
+      else r
+    | _, _ => r
+  else r2
+
+/-- slice_validator.go:128-145: minItems, maxItems, uniqueItems, Inc -/
+def sizePart (b : SBase) (path : String) (xs : List JVal) (r3 : Res) : Res :=
+  let size := xs.length
   let r4 := if ltOpt size b.minItems then r3.addErrors [some (eMinItems path)] else r3
   let r5 := if gtOpt size b.maxItems then r4.addErrors [some (eMaxItems path)] else r4
   let r6 := if b.uniqueItems && hasDup xs then r5.addErrors [some (eUnique path)] else r5
   r6.inc
+
+def sliceValidate (cfg : Cfg) (b : SBase) (k : IKids) (path : String) (xs : List JVal) : Res :=
+  let r1 := match k.itemsS with
+    | some f => itemsLoop f path xs 0 {}
+    | none => {}
+  let r2 := tupleLoop path k.itemsT xs 0 r1
+  sizePart b path xs (addlPart cfg b k path xs r2)
 
 /-! ### schemaProps validator (schema_props.go:101-317) -/
 
@@ -300,28 +308,43 @@ def depsLoop (b : SBase) (k : IKids) (path : String) (v : JVal) (kvs : List (Str
           (main.addErrors (ds.map fun d => if ahas d kvs then none else some (eDependency path d)))
       | none => depsLoop b k path v kvs rest main
 
+def anyOfPart (cfg : Cfg) (k : IKids) (path : String) (v : JVal) (main : Res) : Res × Option Res :=
+  if k.anyOf.isEmpty then (main, none)
+  else ((anyOfLoop cfg path v k.anyOf none main {}).1, some (anyOfLoop cfg path v k.anyOf none main {}).2)
+
+def oneOfPart (cfg : Cfg) (k : IKids) (path : String) (v : JVal) (main : Res) : Res × Option Res :=
+  if k.oneOf.isEmpty then (main, none)
+  else ((oneOfLoop cfg path v k.oneOf none none 0 main {}).1,
+        some (oneOfLoop cfg path v k.oneOf none none 0 main {}).2)
+
+def allOfPart (cfg : Cfg) (k : IKids) (path : String) (v : JVal) (main : Res) : Res × Option Res :=
+  if k.allOf.isEmpty then (main, none)
+  else ((allOfLoop cfg path v k.allOf.length k.allOf 0 main {}).1,
+        some (allOfLoop cfg path v k.allOf.length k.allOf 0 main {}).2)
+
+/-- schema_props.go:280-292 -/
+def notPart (k : IKids) (path : String) (v : JVal) (main : Res) : Res :=
+  match k.not with
+  | some f =>
+    let result := f path v
+    let main := absorb main result
+    if result.errors.isEmpty then main.addErrors [some (eNot path)] else main
+  | none => main
+
+/-- schema_props.go:142-144 -/
+def depsPart (b : SBase) (k : IKids) (path : String) (v : JVal) (main : Res) : Res :=
+  match v with
+  | .obj kvs =>
+    if b.depProps.isEmpty && k.depSchemas.isEmpty then main else depsLoop b k path v kvs kvs main
+  | _ => main
+
 def schemaPropsValidate (cfg : Cfg) (b : SBase) (k : IKids) (path : String) (v : JVal) : Res :=
-  let main : Res := {}
-  let (main, keepAny) :=
-    if k.anyOf.isEmpty then (main, (none : Option Res))
-    else let (m, kp) := anyOfLoop cfg path v k.anyOf none main {}; (m, some kp)
-  let (main, keepOne) :=
-    if k.oneOf.isEmpty then (main, (none : Option Res))
-    else let (m, kp) := oneOfLoop cfg path v k.oneOf none none 0 main {}; (m, some kp)
-  let (main, keepAll) :=
-    if k.allOf.isEmpty then (main, (none : Option Res))
-    else let (m, kp) := allOfLoop cfg path v k.allOf.length k.allOf 0 main {}; (m, some kp)
-  let main := match k.not with
-    | some f =>
-      let result := f path v
-      let main := absorb main result
-      if result.errors.isEmpty then main.addErrors [some (eNot path)] else main
-    | none => main
-  let main := match v with
-    | .obj kvs =>
-      if b.depProps.isEmpty && k.depSchemas.isEmpty then main else depsLoop b k path v kvs kvs main
-    | _ => main
-  main.inc.merge [keepAll, keepOne, keepAny]
+  let p1 := anyOfPart cfg k path v {}
+  let p2 := oneOfPart cfg k path v p1.1
+  let p3 := allOfPart cfg k path v p2.1
+  let main := notPart k path v p3.1
+  let main := depsPart b k path v main
+  main.inc.merge [p3.2, p2.2, p1.2]
 
 /-! ### object validator (object_validator.go:160-427) -/
 
@@ -414,14 +437,14 @@ def precheck (opts : Opts) (path : String) (kvs : List (String × JVal)) (res : 
   let res :=
     if opts.arrayMustHaveItems then
       match alookup "type" kvs with
-      | some (.str "array") => if ahas "items" kvs then res else res.addErrors [some ⟨602, "items", "required"⟩]
+      | some (.str "array") => if ahas "items" kvs then res else res.addErrors [some { code := 602, name := "items", tag := "required" }]
       | _ => res
     else res
   if opts.objectArrayTypeCheck then
     if isPropertiesPath path || isDefaultPath path || isExamplePath path then res
     else if !ahas "items" kvs then res
     else
-      let res := if ahas "type" kvs then res else res.addErrors [some ⟨602, "type", "required"⟩]
+      let res := if ahas "type" kvs then res else res.addErrors [some { code := 602, name := "type", tag := "required" }]
       match alookup "type" kvs with
       | some (.str "array") => res
       | _ => res.addErrors [some (eInvalidType path "array")]
@@ -517,10 +540,13 @@ def validateM (cfg : Cfg) (opts : Opts) (O : Oracles) (r : String → V) : List 
 termination_by structural l => l
 end
 
+def eFuel : Msg := { code := 0, name := "", tag := "model: reference fuel exhausted" }
+
 /-- `$ref` by fuel (spec.ExpandSchema replaces the node by its target in place; the path of the
-    node is kept). Exhausted fuel or an unknown name stands for the documented panic. -/
+    node is kept). An unknown name stands for the documented panic. Exhausted fuel is an artefact
+    of the model, reported as a recognisable error (the specification side answers `false`). -/
 def validateF (cfg : Cfg) (opts : Opts) (O : Oracles) (defs : String → Option Schema) : Nat → Schema → V
-  | 0, s, p, v => validate cfg opts O (fun _ _ _ => panic) s p v
+  | 0, s, p, v => validate cfg opts O (fun _ _ _ => sErr eFuel) s p v
   | n + 1, s, p, v =>
     validate cfg opts O (fun name p' x => match defs name with
                                          | some t => validateF cfg opts O defs n t p' x
